@@ -59,14 +59,19 @@ func (c *Ctx) newMatchModel() *matchModel {
 		if e == nil {
 			continue
 		}
+		seenPattern := false
 		for _, p := range e.Params {
-			switch p.Name() {
-			case "pattern":
-				m.add(p, "P")
-			case "fact":
-				m.add(p, "F")
-			case "bindings":
+			if ssau.TypeIs(p.Type(), prog.Abs("match"), "Bindings") {
 				m.add(p, "B")
+				continue
+			}
+			if it, ok := p.Type().Underlying().(*types.Interface); ok && it.NumMethods() == 0 {
+				if !seenPattern {
+					m.add(p, "P")
+					seenPattern = true
+				} else {
+					m.add(p, "F")
+				}
 			}
 		}
 	}
